@@ -115,6 +115,7 @@ class SimServer:
         self.auth_hook = None          # override for SASL verdict
         self.sasl_seen = []            # decoded credentials per AUTHENTICATE exchange
         self.oauth_challenge_on_fail = False
+        self.inject_after_starttls = False
         self.self_check = True
         self.fault_counts = {}
         self.shape_counts = {}
@@ -482,6 +483,15 @@ class SimServer:
             return
         rec.applied = True
         self._reply(conn, rec, scope, b"OK", (), None, b"begin TLS negotiation")
+        if self.inject_after_starttls and conn.segments:
+            # a man in the middle appends a plaintext capability block to the OK (STARTTLS command injection):
+            # whatever arrives before the handshake must not be taken for the post-handshake capabilities
+            r = Renderer(lambda k, v: False)
+            fake = r.render(Reply(b"OK", self._cap_lines(conn), None, b"injected"))
+            seg = conn.segments[-1]
+            seg.data = seg.data + fake
+            rec.note = "plaintext-injected"
+            self.fault_counts["starttls:plaintext-injection"] = self.fault_counts.get("starttls:plaintext-injection", 0) + 1
         st.awaiting_handshake = True
         if st.buf:
             self.violation(conn, "bytes pipelined after STARTTLS", bytes(st.buf))
@@ -774,7 +784,10 @@ class SimServer:
         # parse directives: key=value or key="value" separated by commas
         d = {}
         try:
-            s = data.decode("utf-8")
+            # RFC 2831: without a charset=utf-8 directive the response is ISO 8859-1
+            probe = data.decode("latin-1")
+            utf8 = "charset=utf-8" in probe.replace(" ", "").lower()
+            s = data.decode("utf-8") if utf8 else probe
             i = 0
             n = len(s)
             while i < n:
